@@ -41,7 +41,10 @@ func isAllocOf(v ssa.Value, name string) bool {
 
 // ctorCalls: calls in fn that build an actor context (result 0 is *Context).
 func (p *Program) ctorCalls(lc *lifecycle, fn *ssa.Function) map[int]bool {
-	g := p.ig(fn)
+	return p.ctorCallsG(lc, p.ig(fn))
+}
+
+func (p *Program) ctorCallsG(lc *lifecycle, g *IG) map[int]bool {
 	return nodesWhere(g, func(in ssa.Instruction) bool {
 		c := callOf(in)
 		if c == nil || c.StaticCallee() == nil {
@@ -90,8 +93,8 @@ func c05Spawn(p *Program, r *Report) {
 		return
 	}
 	ao := p.ctxMethod(lc, "ActorOf")
-	g := p.ig(ao)
-	ctor := p.ctorCalls(lc, ao)
+	g := p.igxSkip(ao, lc.roleFuncs(p)) // bookkeeping helpers (an extracted addChild) stay part of ActorOf's paths; role functions stay calls
+	ctor := p.ctorCallsG(lc, g)
 	if len(ctor) == 0 {
 		r.Unresolved("constructor call in ActorOf")
 		return
@@ -106,7 +109,11 @@ func c05Spawn(p *Program, r *Report) {
 	})
 	tells := map[int]bool{}
 	launch := map[int]bool{}
-	for _, ts := range p.tellSites(ao) {
+	var aoTells []tellSite
+	for _, f := range g.Fns {
+		aoTells = append(aoTells, p.tellSites(f)...)
+	}
+	for _, ts := range aoTells {
 		tells[g.Idx[ts.In]] = true
 		if isAllocOf(ts.Message, "OnLaunch") {
 			launch[g.Idx[ts.In]] = true
@@ -116,7 +123,7 @@ func c05Spawn(p *Program, r *Report) {
 	sends := union(tells, nodesWhere(g, func(in ssa.Instruction) bool { c := callOf(in); return c != nil && c.StaticCallee() == kill }))
 	// error edges of the constructor
 	errE, okE := map[edge]bool{}, map[edge]bool{}
-	for _, ifi := range ifsOf(ao) {
+	for _, ifi := range g.ifs() {
 		for _, outcome := range []bool{true, false} {
 			f, ok := condFact(ifi.Cond, outcome)
 			if !ok || !f.IsNil {
@@ -153,7 +160,7 @@ func c05Spawn(p *Program, r *Report) {
 	}
 	conflict, fresh := map[edge]bool{}, map[edge]bool{}
 	if regCall != nil {
-		for _, ifi := range ifsOf(ao) {
+		for _, ifi := range g.ifs() {
 			for _, outcome := range []bool{true, false} {
 				f, ok := condFact(ifi.Cond, outcome)
 				if ok && f.Bool && f.X == ssa.Value(regCall) {
@@ -184,8 +191,10 @@ func c05Spawn(p *Program, r *Report) {
 	children := p.childrenField(lc)
 	ins := map[int]bool{}
 	for _, a := range p.fieldAccesses(map[*types.Var]bool{children: true}) {
-		if a.Fn == ao && a.Kind == "map-update" {
-			ins[a.Node] = true
+		if a.Kind == "map-update" && g.owns(p, a.Fn) {
+			if n, in := g.Idx[a.In]; in {
+				ins[n] = true
+			}
 		}
 	}
 	good = len(launch) == 1 && len(ins) > 0
